@@ -11,9 +11,15 @@ predicates Qe / Ql for what the callbacks return.  Obligations generated at the 
     leave    for an arbitrary state and an entered, not yet left x all of whose children are left, with args[k] satisfying
              Ql(k-th child, args[k]):  after g(x, args):  J(ENT, LEFT + x) and Ql(x, returned value).
 Conclusion assumed afterwards:  J(Sub(r), Sub(r)) and Ql(r, result)   (result is None without a leave callback).
-The rule is a consequence of the contract of `_traverse_dfs` proved in contracts/C04.py (every subtree node entered once after its
-parent with the parent's value, left once after its children with exactly their values) by induction over the event order; that
-derivation is an argument in DESIGN.md, not a mechanised proof, and is therefore listed under assumptions ("derived rule").
+Without an enter (leave) callback the traversal still enters (leaves) every node: if J reads ENT (LEFT) the rule emits the silent step
+    enter/invariant-preserved-where-no-enter-callback-is-given   J(ENT, LEFT) => J(ENT + x, LEFT) in an unchanged state (likewise leave).
+Status: the SCHEMA (init / enter / leave / silent steps => conclusion, for every run made of enabled events) is proved in Lean 4,
+lean/TraverseRule.lean (`inv_of_reach`, `traverse_rule_sound`, `traverse_rule_sound_no_enter`, `traverse_rule_sound_no_leave`).  That every
+callback call of the real `_traverse_dfs` is an enabled event, and that a run ends with exactly the subtree entered and left, are
+obligations of contracts/C04.py (`C04/_traverse_dfs/enter/...`, `.../leave/...`, `.../post/...`).  What remains by inspection: that the
+first-order obligations emitted below are the instances of the Lean premises (same text, clause by clause - see the header of the
+Lean file), and the frame of the client's callbacks (`modifies` is havocked, not checked).  Evidence lists this as "lemma schema proved
+in Lean 4, instantiated by inspection".
 """
 from __future__ import annotations
 
@@ -178,8 +184,9 @@ def apply(eng, rule: Rule, fr, topology, enter, leave, root):
     eng.assume(z3.ForAll([x, k, k2], z3.Implies(z3.And(0 <= k, k < k2, k2 < nkids(x)), kid(x, k) < kid(x, k2))))
     eng.assume(z3.ForAll([c], z3.Implies(z3.And(R(c), sel(P, c) >= 0), z3.And(0 <= rank(c), rank(c) < nkids(sel(P, c)), kid(sel(P, c), rank(c)) == c))))
     eng.assumptions.add("ghost definitions per traverse call: Sub (subtree of the start node), nkids / kid / rank (children in table order)")
-    eng.assumptions.add("assumed-lemma:traverse client rule: schema proved in Lean (lean/TraverseRule.lean: traverse_rule_sound) from the event-sequence "
-                        "reading of the contract of _traverse_dfs proved in contracts/C04.py; the obligations emitted here instantiate its premises by inspection")
+    eng.assumptions.add("assumed-lemma:traverse client rule: schema proved in Lean (lean/TraverseRule.lean: traverse_rule_sound, _no_enter, _no_leave) over the event model "
+                        "whose steps are the callback obligations C04/_traverse_dfs/enter|leave/... and whose end state is C04's postconditions; the obligations emitted here "
+                        "instantiate its premises by inspection; the callbacks' frame (Rule.modifies) is havocked, not checked")
     ctx = Ctx(P, n, rz, Sub, nkids, kid, rank)
     eng.ghost["last-traverse-Sub"] = Sub  # so that the caller's postconditions can speak about the subtree of this call
     eng.ghost["last-traverse-ctx"] = ctx  # ... and about the children enumeration (nkids / kid / rank) of this call
@@ -240,6 +247,24 @@ def apply(eng, rule: Rule, fr, topology, enter, leave, root):
     emptyset = z3.K(I, z3.BoolVal(False))
     # ---- init
     prove_J("init/invariant-holds-before-the-first-event", emptyset, emptyset)
+
+    def j_reads(which):
+        """does J read ENT (which = 0) / LEFT (which = 1)?  J is evaluated once with two fresh set constants; a constant that does not
+        occur in the resulting formula is not read (a step without a callback then hands its hypothesis back: nothing to prove)"""
+        sets = [z3.Const(fresh_name(nm), z3.ArraySort(I, B)) for nm in ("ENTp", "LEFTp")]
+        todo, seen = [f for _, f in J_parts(*sets)], set()
+        while todo:
+            t = todo.pop()
+            if t.get_id() in seen:
+                continue
+            seen.add(t.get_id())
+            if z3.eq(t, sets[which]):
+                return True
+            if z3.is_quantifier(t):
+                todo.append(t.body())
+            else:
+                todo.extend(t.children())
+        return False
 
     def phase(body):
         """run `body` on an arbitrary reachable state; its assumptions are dropped afterwards"""
@@ -327,6 +352,23 @@ def apply(eng, rule: Rule, fr, topology, enter, leave, root):
             _prove_parts(eng, f"{lab}/enter/returned-value-as-specified", rule.Qe(eng, vars_now(), xz, ret, ctx))
 
         phase(enter_step)
+    else:
+        # No enter callback: the traversal still ENTERS every node (lean/TraverseRule.lean instantiates f with the callback that does
+        # nothing and returns None), so the invariant must survive ENT growing by an enabled node in an otherwise unchanged state.
+        # A J that does not read ENT gives the very hypothesis back (discharged at once); a J that does is checked here.
+        def silent_enter_step():
+            ENT = z3.Const(fresh_name("ENT"), z3.ArraySort(I, B))
+            LEFT = z3.Const(fresh_name("LEFT"), z3.ArraySort(I, B))
+            xz = fresh("int", "node").z
+            eng.assume(z3.ForAll([c], z3.And(z3.Implies(sel(LEFT, c), sel(ENT, c)), z3.Implies(sel(ENT, c), Sub(c)),
+                                             z3.Implies(z3.And(sel(ENT, c), c != rz), sel(ENT, sel(P, c))))))
+            eng.assume(z3.And(Sub(xz), z3.Not(sel(ENT, xz)), z3.Not(sel(LEFT, xz)), R(xz)))
+            eng.assume(z3.Implies(xz != rz, z3.And(sel(ENT, sel(P, xz)), z3.Not(sel(LEFT, sel(P, xz))))))
+            assume_J(ENT, LEFT)
+            prove_J("enter/invariant-preserved-where-no-enter-callback-is-given", z3.Store(ENT, xz, z3.BoolVal(True)), LEFT)
+
+        if j_reads(0):
+            phase(silent_enter_step)
 
     # ---- leave step
     if leave is not None:
@@ -397,6 +439,22 @@ def apply(eng, rule: Rule, fr, topology, enter, leave, root):
             _prove_parts(eng, f"{lab}/leave/returned-value-as-specified", rule.Ql(eng, vars_now(), xz, ret, ctx))
 
         phase(leave_step)
+    else:
+        # No leave callback: every node is still LEFT (after its children); see the remark at the enter step.
+        def silent_leave_step():
+            ENT = z3.Const(fresh_name("ENT"), z3.ArraySort(I, B))
+            LEFT = z3.Const(fresh_name("LEFT"), z3.ArraySort(I, B))
+            xz = fresh("int", "node").z
+            eng.assume(z3.ForAll([c], z3.And(z3.Implies(sel(LEFT, c), sel(ENT, c)), z3.Implies(sel(ENT, c), Sub(c)),
+                                             z3.Implies(z3.And(sel(ENT, c), c != rz), sel(ENT, sel(P, c))))))
+            eng.assume(z3.And(Sub(xz), sel(ENT, xz), z3.Not(sel(LEFT, xz)), R(xz)))
+            eng.assume(z3.ForAll([c], z3.Implies(z3.And(R(c), sel(P, c) == xz), z3.And(sel(ENT, c), sel(LEFT, c)))))
+            eng.assume(z3.Implies(xz != rz, z3.And(sel(ENT, sel(P, xz)), z3.Not(sel(LEFT, sel(P, xz))))))
+            assume_J(ENT, LEFT)
+            prove_J("leave/invariant-preserved-where-no-leave-callback-is-given", ENT, z3.Store(LEFT, xz, z3.BoolVal(True)))
+
+        if j_reads(1):
+            phase(silent_leave_step)
 
     # ---- conclusion
     havoc()
